@@ -187,3 +187,13 @@ func zzC09Guard(steps, decisions int, f func()) int {
 		}
 	}
 }
+
+// zzC09StubErrorPanic replaces ErrorPanic in the C09.format runs: format's
+// error messages quote the control string (%q of symbolic bytes), which the
+// engine's fmt model cannot render.  The stub raises the same condition (the
+// real ErrorNew: class lookup, instance creation, Init) with the unformatted
+// text; fmt.Sprintf itself recovers from panics of the String methods it
+// calls, so nothing that can fault the host is skipped.
+func zzC09StubErrorPanic(s *Scope, depth int, format string, args ...any) {
+	panic(ErrorNew(s, depth, "%s", format))
+}
